@@ -222,6 +222,7 @@ class Type1Tag(Tag):
             # ndef data into the memory image, but jump over skip
             # bytes.
             offset += 2 if len(data) < 255 else 4
+            i = -1  # for an empty message
             for i in range(len(data)):
                 while offset + i in skip_bytes:
                     offset += 1
